@@ -58,6 +58,25 @@ def gen_cases(tier, seed):
                 h.spr_exit()
                 histgen.add_call(h, rnd, inv, kind='positive')
                 yield h.case(5000, 'bare block after a block %s' % inv.name)
+    # one Request object sent inside a block and again after it (and before, inside, after): the block must not leave a
+    # mark on the object
+    for inv in invs:
+        if inv.callid != 1:
+            continue
+        for wait in (False, True):
+            for kind in ('positive', 'negative', 'silence'):
+                for before in (False, True):
+                    cfgv = list(cl.DEFAULT_CFG)
+                    h = cl.H(cfgv)
+                    args = list(inv.args) + [1]
+                    if before:
+                        h.call(1, args, inv.blobs, [(10, inv.positive)])
+                    h.spr_enter(wait)
+                    h.call(1, args, inv.blobs, dict(histgen.reply_kinds(inv, rnd)).get(kind, []))
+                    h.spr_exit()
+                    h.call(1, args, inv.blobs, [(10, inv.positive)])
+                    h.call(1, args, inv.blobs, [(10, bytes([0x7F, inv.sid, 0x22]))])
+                    yield h.case(5000, 'same Request object inside and after a block')
     n, m = (3000, 12) if tier == 'quick' else (100000, 40)
     for _ in range(n):
         h, tags = histgen.gen_history(rnd, m, invs, p_stale=0.05)
